@@ -768,7 +768,15 @@ func (p *Parser) doHeredocs() {
 			r.Hdoc = p.getWord()
 		}
 		if stop := p.hdocStops[len(p.hdocStops)-1]; stop != nil {
-			p.posErr(r.Pos(), "unclosed here-document %#q", stop)
+			// If the closing word is missing because the input ended, more
+			// input bytes would have avoided this error, no matter which
+			// token we stopped at or whether a statement is still open.
+			p.errPass(ParseError{
+				Filename:   p.f.Name,
+				Pos:        r.Pos(),
+				Text:       fmt.Sprintf("unclosed here-document %#q", stop),
+				Incomplete: p.r == runeEOF,
+			})
 		}
 		p.hdocStops = p.hdocStops[:len(p.hdocStops)-1]
 	}
